@@ -151,6 +151,19 @@ pub fn check_utc(rep: &mut Rep, w: &World, u: i128, file: Option<&LeapSecondsFil
             rep.fail("utc/ctor", None, || format!("from_utc_duration({u}) = ({}, {:?})", count_d(c2.duration), c2.time_scale));
         }
     }
+    // a UTC epoch asked for its own UTC reading: the identity, through every accessor
+    match guard(|| (e.to_utc_duration(), e.to_time_scale(TimeScale::UTC), e.to_duration_in_time_scale(TimeScale::UTC), e.to_utc_seconds(), e.to_utc_days())) {
+        Err(p) => rep.fail(&format!("utc-identity/panic/{}", p.class()), None, || format!("UTC {} own-scale accessors panicked: {}", u, p.msg)),
+        Ok((d1, e2, d3, secs, days)) => {
+            if count_d(d1) != u || count_d(e2.duration) != u || e2.time_scale != TimeScale::UTC || count_d(d3) != u {
+                rep.fail("utc-identity/value", None, || format!("UTC count {}: to_utc_duration {} to_time_scale(UTC) {} to_duration_in_time_scale(UTC) {}", u, count_d(d1), count_d(e2.duration), count_d(d3)));
+            }
+            let ur = |x: f64, unit: i128| crate::model::flt::ulp(x.abs().max(NS_S as f64 / unit as f64));
+            if !crate::model::flt::within_ulps(secs, u, NS_S, ur(secs, NS_S), 8.0) || !crate::model::flt::within_ulps(days, u, NS_D, ur(days, NS_D), 8.0) {
+                rep.fail("utc-identity/float", None, || format!("UTC count {}: to_utc_seconds {} to_utc_days {}", u, secs, days));
+            }
+        }
+    }
     match guard(|| {
         let a = e.to_time_scale(TimeScale::TAI);
         let b = e.to_tai_duration();
